@@ -175,6 +175,8 @@ type RespSubst struct {
 	ItemsDelta  int         `json:"items_delta,omitempty"`  // -1 drop last item, +1 duplicate last item, -9 no item at all
 	Items       []ItemSubst `json:"items,omitempty"`        // by item index (cycled); empty = all items correct
 	SwapIDs     bool        `json:"swap_ids,omitempty"`
+	// DupIDs: every response item echoes the Unique Batch Item ID of the first request item
+	DupIDs bool `json:"dup_ids,omitempty"`
 	// Decor: optional elements a server may add to an otherwise unchanged response (bitmask): 1 a non-critical
 	// MessageExtension on every item, 2 an AsynchronousCorrelationValue on every item, 4 no UniqueBatchItemID echoed,
 	// 8 correlation values in the header. A client may accept or reject such a response; all other rules apply.
@@ -185,7 +187,7 @@ func (r *RespSubst) violating() bool {
 	if r == nil {
 		return false
 	}
-	if r.HeaderDelta != 0 || r.ItemsDelta != 0 || r.SwapIDs || r.Decor != 0 {
+	if r.HeaderDelta != 0 || r.ItemsDelta != 0 || r.SwapIDs || r.DupIDs || r.Decor != 0 {
 		return true // (decorated responses: "may be rejected", see Decor)
 	}
 	for _, it := range r.Items {
@@ -285,6 +287,7 @@ func genRespSubst(g *simrt.Tape) *RespSubst {
 		r.Items = append(r.Items, genItemSubst(g))
 	}
 	r.SwapIDs = g.Draw(8) == 0
+	r.DupIDs = g.Draw(10) == 0
 	if g.Draw(4) == 0 {
 		r.Decor = 1 + g.Draw(15)
 	}
@@ -363,7 +366,8 @@ func c12Floor(tier string) []*C12Sc {
 	}
 	// batches under every continuation option, with self-consistent truncated / extended / failed replies
 	for opt := 0; opt < 4; opt++ {
-		for _, sb := range []*RespSubst{nil, {ItemsDelta: -1}, {ItemsDelta: -9}, {ItemsDelta: 1}, {HeaderDelta: 1}, {SwapIDs: true},
+		for _, sb := range []*RespSubst{nil, {ItemsDelta: -1}, {ItemsDelta: -9}, {ItemsDelta: 1}, {HeaderDelta: 1}, {SwapIDs: true}, {DupIDs: true},
+			{DupIDs: true, Items: []ItemSubst{{Status: 1, Reason: 1, Message: true, Payload: "absent"}, {}}},
 			{Items: []ItemSubst{{Status: 1, Reason: 1, Message: true, Payload: "absent"}, {}}},
 			{Items: []ItemSubst{{}, {Status: 1, Reason: 1, Message: true, Payload: "absent"}}},
 			{ItemsDelta: -1, Items: []ItemSubst{{Status: 1, Reason: 1, Message: true, Payload: "absent"}, {}}}} {
@@ -558,6 +562,11 @@ func buildResponseWith(req *kmip.RequestMessage, sb *RespSubst, sent *[]c12Sent,
 			}
 		case -9:
 			resp.BatchItem = nil
+		}
+		if sb.DupIDs && len(resp.BatchItem) > 1 {
+			for i := range resp.BatchItem {
+				resp.BatchItem[i].UniqueBatchItemID = resp.BatchItem[0].UniqueBatchItemID
+			}
 		}
 		if sb.SwapIDs && len(resp.BatchItem) > 1 {
 			resp.BatchItem[0].UniqueBatchItemID, resp.BatchItem[1].UniqueBatchItemID = resp.BatchItem[1].UniqueBatchItemID, resp.BatchItem[0].UniqueBatchItemID
